@@ -214,15 +214,14 @@ void sh_maybe()
         if (cat < 2)
           CK(code(o) == m, "optional::maybe_void:source_modified", "lvalue source is now %s", show_opt(code(o)).c_str());
       }
-      // to_container(const lvalue optional) does not compile (container::make binds a non-const reference): see report
-      if (cat != 0 && vrt::begin("optional::to_container<cat,m>", cat, m))
+      if (vrt::begin("optional::to_container<cat,m>", cat, m))
       {
         auto desc = [&] { return std::string("optional::to_container<std::vector<D>>(") + show_opt(m) + " as " + cat_name(cat) + ")"; };
         vrt::nontrivial(m != 0);
         SAMPLE();
         OD o = mk_od(m);
         std::vector<D> const r =
-            cat == 1 ? fcppt::optional::to_container<std::vector<D>>(o) : fcppt::optional::to_container<std::vector<D>>(std::move(o));
+            call_cat(cat, o, [&](auto &&x) { return fcppt::optional::to_container<std::vector<D>>(std::forward<decltype(x)>(x)); });
         CK(vals(r) == (m == 0 ? std::vector<int>{} : std::vector<int>{m - 1}), "optional::to_container:result", "got %s",
            show_seq(vals(r), show_int).c_str());
         if (cat < 2)
@@ -937,5 +936,9 @@ int main(int argc, char **argv)
   c04_optional_shards();
   c04_either_shards();
   c04_variant_shards();
+  c04_poly_shards();
+  c04_rich_val_shards();
+  c04_rich_heap_shards();
+  c04_rich_move_only_shards();
   return vrt::run(argc, argv);
 }
